@@ -49,7 +49,7 @@ structure HPort where
   deriving Repr, Inhabited
 
 inductive Item
-  | portDecl (dir : Dir) (vtype : Option String) (rng : Option (Int × Int)) (name : String)
+  | portDecl (dir : Dir) (vtype : Option String) (rng : Option (Int × Int)) (name : String) (attrs : Attrs)
   | wireDecl (ty : String) (rng : Option (Int × Int)) (name : String) (attrs : Attrs)
   | inst (mod name : String) (params : Params) (attrs : Attrs) (named : Bool)
       (conns : List (Option String × XExpr))
@@ -74,6 +74,7 @@ structure Port where
   lower : Int
   downto : Bool
   pins : List (Option Nat)
+  attrs : Option Attrs := none
   deriving Repr, Inhabited
 
 structure Cable where
@@ -178,7 +179,7 @@ def createOrUpdatePort (s : St) (dn : String) (name : String) (l r : Option Int)
   match portIdx d name with
   | none =>
     let p := populateNew l r
-    let port : Port := ⟨some name, dir.getD .undef, p.1, p.2.2, List.replicate p.2.1 none⟩
+    let port : Port := ⟨some name, dir.getD .undef, p.1, p.2.2, List.replicate p.2.1 none, none⟩
     let k := d.ports.length
     let s := s.upd dn (fun d => { d with ports := d.ports ++ [port] })
     pure (mapInstRows s dn k (fun _ => List.replicate p.2.1 none))
@@ -292,7 +293,7 @@ def portsOnWires (d : Def) (ws : List Nat) : List Nat :=
 
 /-- `parse_port_declaration` (one name) -/
 def portDecl (s : St) (dn : String) (dir : Dir) (vtype : Option String) (rng : Option (Int × Int))
-    (name : String) : M St := do
+    (name : String) (attrs : Attrs) : M St := do
   let s ← createOrUpdateCable s dn name (rngL rng) (rngR rng) vtype true
   let d ← getDef s dn
   match d.cables.find? (fun c => c.name == name) with
@@ -306,6 +307,9 @@ def portDecl (s : St) (dn : String) (dir : Dir) (vtype : Option String) (rng : O
       | [k] =>
         let pname := ((d.ports.getD k default).name).getD ""
         let s ← createOrUpdatePort s dn pname (rngL rng) (rngR rng) (some dir) true
+        -- (as repaired) the attributes in front of the declaration are kept on the port
+        let s := if attrs.isEmpty then s else s.upd dn (fun d => { d with ports := d.ports.map (fun p =>
+          if p.name == some pname then { p with attrs := some attrs } else p) })
         let d ← getDef s dn
         match d.cables.find? (fun c => c.name == name), portIdx d pname with
         | some c, some k =>
@@ -411,8 +415,8 @@ def ensureAssignDef (s : St) (w : Nat) : St :=
   match s.find (assignDefName w) with
   | some _ => s
   | none =>
-    let i : Port := ⟨some "i", .inp, 0, true, List.replicate w none⟩
-    let o : Port := ⟨some "o", .out, 0, true, List.replicate w none⟩
+    let i : Port := ⟨some "i", .inp, 0, true, List.replicate w none, none⟩
+    let o : Port := ⟨some "o", .out, 0, true, List.replicate w none, none⟩
     { s with defs := s.defs ++ [⟨assignDefName w, some "SDN_VERILOG_ASSIGNMENT", false, [], none, [i, o], [], []⟩] }
 
 def assignStmt (s : St) (dn : String) (l r : XAtom) : M St := do
@@ -432,7 +436,7 @@ def mergeParams (old new : Params) : Params :=
   new.foldl (fun acc kv => if acc.any (fun x => x.1 == kv.1) then acc else acc ++ [kv]) old
 
 def elabItem (s : St) (dn : String) (prim : Bool) : Item → M St
-  | .portDecl dir vt rng name => portDecl s dn dir vt rng name
+  | .portDecl dir vt rng name attrs => portDecl s dn dir vt rng name (if prim then [] else attrs)
   | .wireDecl ty rng name attrs =>
     if prim then pure s else do
       let s ← createOrUpdateCable s dn name (rngL rng) (rngR rng) (some ty) false
